@@ -389,6 +389,54 @@ func extractC01Round2(c *Ctx, kfiles []*ast.File, abci *ast.File, cached []strin
 			psafe = append(psafe, n)
 		}
 	}
+	// --- the deferred "commit only if <v> == nil" must read a NAMED RESULT: then every return statement,
+	//     also one that builds a fresh error, assigns it before the deferred function runs.  With a local
+	//     variable a `return nil, fmt.Errorf(...)` leaves it nil and the half-done change is committed. ---
+	var named []string
+	for _, n := range cached {
+		fd, err := need(kfiles, "Keeper", n)
+		if err != nil {
+			return err
+		}
+		results := map[string]bool{}
+		if fd.Type.Results != nil {
+			for _, f := range fd.Type.Results.List {
+				for _, id := range f.Names {
+					results[id.Name] = true
+				}
+			}
+		}
+		ok := false
+		ast.Inspect(fd.Body, func(x ast.Node) bool {
+			ds, isDefer := x.(*ast.DeferStmt)
+			if !isDefer {
+				return true
+			}
+			fl, isLit := ds.Call.Fun.(*ast.FuncLit)
+			if !isLit {
+				return true
+			}
+			ast.Inspect(fl.Body, func(y ast.Node) bool {
+				is, isIf := y.(*ast.IfStmt)
+				if !isIf || len(Calls(is.Body, "commit")) == 0 {
+					return true
+				}
+				if be, isBin := is.Cond.(*ast.BinaryExpr); isBin && be.Op == token.EQL && c.Src(be.Y) == "nil" {
+					if id, isId := be.X.(*ast.Ident); isId && results[id.Name] {
+						ok = true
+					}
+				}
+				return true
+			})
+			return true
+		})
+		if ok {
+			named = append(named, n)
+		}
+	}
+	c.P("(* cached-context functions whose deferred commit is guarded by `<named result> == nil` *)")
+	c.P("Definition deferred_commit_reads_named_result : list string := %s.", CoqStrList(named))
+	c.Info("deferred_commit_reads_named_result", named)
 	c.P("(* cached-context functions whose commit() cannot run while a panic unwinds *)")
 	c.P("Definition panic_safe_commit_fns : list string := %s.", CoqStrList(psafe))
 	c.Info("panic_safe_commit_fns", psafe)
